@@ -13,6 +13,7 @@ import ClarabelProofs.Lemmas.InfoReport
 import ClarabelProofs.Lemmas.InfoReportExample
 import ClarabelProofs.Lemmas.SolverReport
 import ClarabelModel.InfoReset
+import ClarabelProofs.Props.C03Full2
 
 namespace Clarabel.C03
 open Clarabel.Dense Clarabel.Info Finset
